@@ -826,6 +826,7 @@ pub fn run_one(seed: u64, run: u64, prof: &Profile, enabled: Enabled, want_sampl
     let mut closed_ids: Vec<String> = vec![];
     let mut mig_idx = 0usize;
     let max_open = if prof.many_orders { 12 } else { 7 };
+    let mut delivered_log: Vec<(String, Vec<CoinS>, Value)> = vec![];
     let ttl = 6 + ra.below(20);
 
     macro_rules! apply {
@@ -875,6 +876,12 @@ pub fn run_one(seed: u64, run: u64, prof: &Profile, enabled: Enabled, want_sampl
                 }
                 mempool.push(Pending { due: block + delay, sender, funds, msg });
             }
+        }
+        // a request delivered long ago arrives once more, verbatim (a client that retries late)
+        if !delivered_log.is_empty() && rm.chance(0.05) {
+            let (s0, f0, m0) = rm.pick(&delivered_log).clone();
+            sim.cov.fault("F3_late_duplicate_delivery");
+            mempool.push(Pending { due: block, sender: s0, funds: f0, msg: m0 });
         }
         // ---- environment events
         if rf.chance(fc.p_restart) {
@@ -929,6 +936,12 @@ pub fn run_one(seed: u64, run: u64, prof: &Profile, enabled: Enabled, want_sampl
             }
             let before_asks: Vec<String> = sim.book.asks.keys().cloned().collect();
             let before_bids: Vec<String> = sim.book.bids.keys().cloned().collect();
+            if delivered_log.len() < 48 {
+                delivered_log.push((p.sender.clone(), p.funds.clone(), p.msg.clone()));
+            } else {
+                let k = rm.below(48) as usize;
+                delivered_log[k] = (p.sender.clone(), p.funds.clone(), p.msg.clone());
+            }
             let _rep = apply!(Step::Exec { sender: p.sender, funds: p.funds, msg: p.msg, faults });
             delivered += 1;
             for id in before_asks {
@@ -1141,6 +1154,10 @@ fn decide(
             let px = if whale { Px { units: 1 + r.below(3) as u128, d: 0 } } else { px };
             if whale {
                 price = px.render();
+            } else if wg.precision == 0 && r.chance(0.01) {
+                // an ask whose price x size is far beyond anything the contract has to compute
+                let s0 = 10u128.pow(27) * r.range(1, 50) as u128;
+                size = (s0 - s0 % inc).max(inc);
             } else if r.chance(0.03) {
                 let e = r.range(4, 12) as u32;
                 size = size.saturating_mul(10u128.pow(e)).min(5 * 10u128.pow(28));
